@@ -190,3 +190,24 @@ func verifInstantiate(ctx context.Context, bin []byte, name string, store *wasm.
 	}
 	return &verifInst{mod: mod, inst: inst, eng: eng, store: store}, nil
 }
+
+// verifAddPassiveData inserts a data-count section and one passive data segment (sections must stay ordered:
+// datacount(12) goes before code(10), data(11) after it).
+func verifAddPassiveData(bin []byte, data []byte) []byte {
+	// find the code section start by walking the sections
+	i := 8
+	codeAt := -1
+	for i < len(bin) {
+		id := bin[i]
+		sz, n, _ := leb128.LoadUint32(bin[i+1:])
+		if id == 10 {
+			codeAt = i
+		}
+		i += 1 + int(n) + int(sz)
+	}
+	out := append([]byte{}, bin[:codeAt]...)
+	out = append(out, vSection(12, vU32(1))...)
+	out = append(out, bin[codeAt:]...)
+	seg := append([]byte{0x01}, vBytes(data)...)
+	return append(out, vSection(11, vVec(seg))...)
+}
